@@ -1,5 +1,6 @@
 import Heathcliff.Proofs.C02X
 import Heathcliff.Proofs.C02S
+import Heathcliff.Proofs.GenEvalSq
 import Heathcliff.Proofs.C02W
 import Heathcliff.Proofs.C02V
 import Heathcliff.Proofs.C02K
@@ -538,5 +539,30 @@ example : HC.GenC.ct_translate_inplace_eq (List.replicate 12 1) 3 1 (List.replic
       (HC.ctTranslate HC.c02v_exLevel (HC.unflattenCt HC.c02v_exLevel 3 (List.replicate 12 1) true 1)
         (HC.unflattenCt HC.c02v_exLevel 2 (List.replicate 8 2) true 1) false) :=
   HC.gt_translate_inplace_eq_general HC.c02v_exLevel _ _ 3 2 true 1 false _ (Or.inr (by decide)) (by decide) (by decide) (by decide) (by decide) (by decide)
+
+/-! ### translator tie (task S): the DATA of `Evaluator::bgv_square` (src/evaluator.rs), generated over the flat ciphertext buffer into
+     Gen/EvalCtFns.lean (`GenC.ct_bgv_square`; tables tools/rs2lean_sq.py), = `bgvSquare` of the model (Proofs/GenEvalSq.lean).  Together with
+     `bgvSquare_eq` above: the code's squaring routine computes the product of the ciphertext with itself. -/
+
+/-- `dyadic_product_p(poly1, poly2, degree, moduli, result)` on the flat layout = `rnsDyadic` on `unflattenRns` (the out-of-place wrapper the
+    squaring and multiplication routines call; generated since phase 4b', no equality until now) -/
+theorem gen_poly_dyadic_product_p_model : type_of% @HC.gs_poly_dyadic_product_p_model := @HC.gs_poly_dyadic_product_p_model
+
+/-- dispatch: coefficient form is refused, every size but 2 goes to `bgv_multiply(x, &x.clone())` (route 1, nothing touched) -/
+theorem gen_ct_bgv_square_dispatch : type_of% @HC.gs_bgv_square_dispatch := @HC.gs_bgv_square_dispatch
+
+/-- … and so does the model, by definition -/
+theorem bgvSquare_fallback : type_of% @HC.bgvSquare_fallback := @HC.bgvSquare_fallback
+
+/-- GENERATED = MODEL, fast path (size 2, NTT form): buffer, size 3, factor cf·cf mod t - successes and arithmetic traps alike.
+    Hypotheses: the buffer holds two polynomials of `l.size` components of `l.n` words, at least one modulus (`3·n·k` is computed as
+    `(3·n)·k`), and the resized buffer is addressable (`3·k·n < 2^64`) -/
+theorem gen_ct_bgv_square_eq : type_of% @HC.gs_bgv_square_eq := @HC.gs_bgv_square_eq
+
+/-- non-vacuity: the example BGV level (two moduli 17, n = 2, t = 5), a size-2 buffer of eight words, factor 2 -/
+example : HC.GenC.ct_bgv_square (List.replicate 8 3) 2 2 true HC.c02v_exLevel.qs.toList HC.c02v_exLevel.t HC.c02v_exLevel.n =
+    Except.map (fun c => (HC.flattenCt HC.c02v_exLevel c, 3, c.cf, 0))
+      (HC.bgvSquare HC.c02v_exLevel (HC.unflattenCt HC.c02v_exLevel 2 (List.replicate 8 3) true 2)) :=
+  HC.gs_bgv_square_eq HC.c02v_exLevel _ 2 (by decide) (by decide) (by decide)
 
 end HC.C02
